@@ -400,6 +400,13 @@ sqf::runtime::runtime::result sqf::runtime::runtime::execute(sqf::runtime::runti
                 for (size_t i = 0; i < m_contexts.size(); i++)
                 {
                     m_context_active = m_contexts[i];
+                    if (m_context_active->terminate())
+                    { // A terminated script executes nothing further: drop whatever
+                      // it still had to do, so that it is removed from the list below.
+                        m_context_active->clear_frames();
+                        m_context_active->clear_values(true);
+                        m_context_active->unsuspend();
+                    }
 #ifdef SQFVM_RUNTIME_VERIF
                     sqf::runtime::verif::observe(sqf::runtime::verif::obs::slice_begin, *this, i);
 #endif
